@@ -266,7 +266,7 @@ class Gen:
     # ---- malformed stream
     def malformed_fn(self):
         r = self.r
-        c = r.randrange(0, 22)
+        c = r.randrange(0, 26)
         ty = r.choice(PT)
         if c == 0:
             return self.new_fn([], [], nonfunc=r.choice(["nil", "int", "ptr", "struct", "nilfunc", "nilfunc1"]))
@@ -314,8 +314,19 @@ class Gen:
             return self.new_fn([], [self.st([self.out_field(), self.field("A", self.st([self.in_field(), self.field("X", u(ty))]))])])
         if c == 20:  # In object with an Out-typed field
             return self.new_fn([self.st([self.in_field(), self.field("A", self.st([self.out_field(), self.field("X", u(ty))]))])], [u(ty)])
-        # c == 21: variadic
-        return self.new_fn([u(ty), u(self.slice_of(r.choice(PT)))], [u(r.choice(PT))], variadic=True)
+        if c == 21:  # variadic
+            return self.new_fn([u(ty), u(self.slice_of(r.choice(PT)))], [u(r.choice(PT))], variadic=True)
+        if c == 22:  # unexported field in dig.In (rejected unless ignore-unexported)
+            tg = r.choice([{}, {"ignore-unexported": "true"}, {"ignore-unexported": "false"}, {"ignore-unexported": "1"}])
+            return self.new_fn([self.st([self.in_field(tg), self.field("A", u(ty)), self.field("hidden", u(r.choice(PT)), x=False)])], [u(r.choice(PT))])
+        if c == 23:  # unexported field in dig.Out
+            return self.new_fn([], [self.st([self.out_field(), self.field("A", u(ty)), self.field("hidden", u(r.choice(PT)), x=False)])])
+        if c == 24:  # a plain struct (no In/Out) as parameter and as result
+            plain = self.st([self.field("A", u(ty)), self.field("B", u(r.choice(PT)))])
+            return self.new_fn([plain] if r.random() < 0.5 else [], [plain])
+        # c == 25: group tag on a nested In object field / name tag on a nested object (ignored by dig)
+        inner = self.st([self.in_field(), self.field("X", u(ty))])
+        return self.new_fn([self.st([self.in_field(), self.field("O", inner, {"name": "zz", "optional": "maybe"})])], [u(r.choice(PT))])
 
     def malformed_opts(self, opts):
         r = self.r
